@@ -153,6 +153,9 @@ def run():
     # ... and Links.tla the hyperlink ranges
     from props import linkslib
     linkslib.run_into(c, thorough)
+    # ... and Modes.tla the document-wide conversions (ice mode, font usage)
+    from props import modeslib
+    modeslib.run_into(c, thorough)
     area_reports, c.reports = c.reports[n_before:], c.reports[:n_before]
     summ = {}
     try:
